@@ -296,6 +296,16 @@ func jsonParsley(p parsley.Parser, doc []byte, before []int) (got interface{}, e
 	if (err == nil) != (err2 == nil) || (err != nil && err.Error() != err2.Error()) || !reflect.DeepEqual(got, got2) {
 		pan = fmt.Sprintf("second evaluation of the same File differs: first (%#v, %v), second (%#v, %v)", got, err, got2, err2)
 	}
+	// one tree evaluated twice (a parsed document is a value that can be evaluated again): evaluation must not change it
+	if err == nil {
+		if node, perr := parsley.Parse(parsley.NewContext(fs, text.NewReader(f)), p); perr == nil {
+			v1, e1 := parsley.EvaluateNode(nil, node)
+			v2, e2 := parsley.EvaluateNode(nil, node)
+			if e1 != nil || e2 != nil || !reflect.DeepEqual(v1, got) || !reflect.DeepEqual(v2, got) {
+				pan = fmt.Sprintf("second evaluation of the same tree differs: Evaluate gave %#v, the tree evaluates to (%#v, %v) and then (%#v, %v)", got, v1, e1, v2, e2)
+			}
+		}
+	}
 	if now := readerBytes(f, rd); now != string(specNormalise(doc)) {
 		pan = fmt.Sprintf("the File's bytes changed during evaluation: %q", now)
 	}
